@@ -994,17 +994,23 @@ def rule_r8(chk, prog):
              'executable')
     t = prog.mod('tmpfiles')
     dests = []
+    from ..astutil import resolve_near
+
+    def src_option(fn, c):
+        """'cmd' / 'cmd_cc' if the first argument of the copy is (an
+        element of) that option, followed through nearest definitions"""
+        a0 = resolve_near(fn, c.args[0], c)
+        if isinstance(a0, ast.Subscript):
+            a0 = resolve_near(fn, a0.value, c)
+        return opt_read(a0)
+
     for q, fn in t.funcs.items():
         for c in calls_in(fn):
             if (call_name(c) or '') in ('shutil.copy', 'shutil.copy2',
                                         'shutil.copyfile') and len(
-                                            c.args) >= 2 and opt_read(
-                                                c.args[0].value if isinstance(
-                                                    c.args[0], ast.Subscript)
-                                                else c.args[0]) in (
-                                                    'cmd', 'cmd_cc'):
-                which = opt_read(c.args[0].value if isinstance(
-                    c.args[0], ast.Subscript) else c.args[0])
+                                            c.args) >= 2 and src_option(
+                                                fn, c) in ('cmd', 'cmd_cc'):
+                which = src_option(fn, c)
                 dests.append((which, _name_template(fn, c.args[1], t), c,
                               q))
     chk.floor('C09.R8', 'copies of command executables', len(dests), 2)
